@@ -236,10 +236,10 @@ def run(tier, seed):
         {"id": "dead_endpoint", "dead_endpoint": True, "script": [], "input": "hello", "_thread": ["message", "run_spawned", "selection_decided", "context_compiled", "run_ended"]},
         # a provider that ignores tool_choice and asks for a barred tool in every response, more often than the per-run budget
         # of tool calls: the run still ends (one run_ended, after its session ended)
-        {"id": "barred_forever_none", "script": [runloop.response_json({"outcome": "done", "rid": True, "calls": [{"cid": f"x{k}", "tool": "write", "idx": 0, "dup": False}]}, k) for k in range(48)],
-         "input": "go on", "config": {"tool_choice": runloop.CHOICE["none"], "stateless_history": False}, "timeout_ms": 25000, "_thread": None},
-        {"id": "barred_forever_fn", "script": [runloop.response_json({"outcome": "done", "rid": True, "calls": [{"cid": f"y{k}", "tool": "write", "idx": 0, "dup": False}]}, k) for k in range(48)],
-         "input": "go on", "config": {"tool_choice": runloop.CHOICE["fn_ls"], "stateless_history": True}, "timeout_ms": 25000, "_thread": None},
+        {"id": "barred_forever_none", "script": [runloop.response_json({"outcome": "done", "rid": True, "calls": [{"cid": f"x{k}", "tool": "write", "idx": 0, "dup": False}]}, k) for k in range(8)],
+         "input": "go on", "config": {"tool_choice": runloop.CHOICE["none"], "stateless_history": False}, "timeout_ms": 25000, "_thread": None, "repeat_last": True},
+        {"id": "barred_forever_fn", "script": [runloop.response_json({"outcome": "done", "rid": True, "calls": [{"cid": f"y{k}", "tool": "write", "idx": 0, "dup": False}]}, k) for k in range(8)],
+         "input": "go on", "config": {"tool_choice": runloop.CHOICE["fn_ls"], "stateless_history": True}, "timeout_ms": 25000, "_thread": None, "repeat_last": True},
         # the snapshot of the run's session cannot be written at the end of the run: the run is closed all the same
         {"id": "snapshot_unwritable_tool", "no_provider": True, "input": json.dumps({"tool": "write", "args": {"path": "s.txt", "content": "x"}}),
          "pre": [{"do": "break_snapshots_dir"}], "_thread": ["message", "run_spawned", "side_effects", "run_ended"]},
